@@ -95,7 +95,9 @@ pub fn j_range(form: usize, y: i32, m: u32, d: u32, h: u32, mi: u32, s: u32, out
     };
     let args = vec![form.to_string(), y.to_string(), m.to_string(), d.to_string(), h.to_string(), mi.to_string(), s.to_string()];
     // listed-invalid: month 0 / > 12, day 0 / beyond the month, hour > 24, minute > 59, second > 60
-    let invalid = m == 0 || m > 12 || d == 0 || d as i64 > month_len(y as i64, m as i64) || h > 24 || mi > 59 || s > 60;
+    // hour 24 is only ever meaningful as 24:00:00 (end of day, ISO 8601): with non-zero minutes or seconds it is out
+    // of range in every convention and would silently become a time on the next day; 24:00:00 itself is a don't-care
+    let invalid = m == 0 || m > 12 || d == 0 || d as i64 > month_len(y as i64, m as i64) || h > 24 || (h == 24 && (mi > 0 || s > 0)) || mi > 59 || s > 60;
     let valid = !invalid && h < 24 && s < 60;
     let feb30 = m == 2 && crate::oracle::civil::is_leap(y as i64) && (d == 30 || d == 31) && h <= 24 && mi <= 59 && s <= 60;
     let r = guard(|| {
@@ -107,7 +109,7 @@ pub fn j_range(form: usize, y: i32, m: u32, d: u32, h: u32, mi: u32, s: u32, out
     match r {
         Ok((a, b, c)) => {
             if invalid && (a || b || c) {
-                let which = if feb30 { "feb-30-or-31-in-leap-year" } else if m == 0 || m > 12 { "month" } else if d == 0 || d as i64 > month_len(y as i64, m as i64) { "day" } else if h > 24 { "hour" } else if mi > 59 { "minute" } else { "second" };
+                let which = if feb30 { "feb-30-or-31-in-leap-year" } else if m == 0 || m > 12 { "month" } else if d == 0 || d as i64 > month_len(y as i64, m as i64) { "day" } else if h >= 24 { "hour" } else if mi > 59 { "minute" } else { "second" };
                 out.viol("c13.range", format!("out-of-range-accepted,{which}"), args, format!("Err for {text:?}"), format!("from_str={a} from_gregorian_str={b} from_format_str={c}"));
             } else if valid && !(a && b && c) {
                 out.viol("c13.range", "valid-rejected".into(), args, format!("Ok for {text:?}"), format!("from_str={a} from_gregorian_str={b} from_format_str={c}"));
